@@ -69,6 +69,9 @@ var accelWideShapes = []struct {
 	{`[^\x00]a`, []rune{'a', 0, 1, 0x10ffff}},
 	{`[xy]\x{D800}a`, []rune{'x', 'y', 'a', 0xd800, 0xfffd, 'b'}},
 	{`ab\x{DFFF}`, []rune{'a', 'b', 0xdfff, 0xfffd}},
+	{`x[a\x{D800}]|y[a\x{D801}]`, []rune{'x', 'y', 'a', 0xd800, 0xd801}},
+	{`[a\x{D800}][a\x{D801}]`, []rune{'a', 0xd800, 0xd801}},
+	{`xb\x{D800}|yb\x{D801}`, []rune{'x', 'y', 'b', 0xd800, 0xd801}},
 	{`\x{D800}{2}a?`, []rune{'a', 0xd800, 0xfffd}},
 	{`(?>\x{D800}{2}?)b`, []rune{'b', 0xd800, 0xfffd}},
 	{`\x{DC00}{3}`, []rune{0xdc00, 0xfffd, 'a'}},
